@@ -1,4 +1,8 @@
-import PonyVerif.Model.SqlEval
+/-
+  Structural equality of SQL ASTs with its soundness proof, and the CHECKER of engine Q: the AST the real translator emitted is
+  accepted iff it is the AST the verified model produces for an expression of the fragment (core Lean only: linked into the driver).
+-/
+import PonyVerif.Model.Translate
 namespace PonyVerif.Model.Q
 mutual
 def Sql.beq : Sql → Sql → Bool
@@ -69,4 +73,18 @@ theorem SqlList.beq_eq : ∀ (a b : SqlList), SqlList.beq a b = true → a = b
       cases b <;> simp_all [SqlList.beq]
       rename_i h' t'; intro h1 h2; exact ⟨Sql.beq_eq h h' h1, SqlList.beq_eq t t' h2⟩
 end
+
+/-- CHECKER: `real` — the WHERE conditions `query._translator.conditions` of the real translator, decoded from JSON — is accepted for the
+    expression `e` when `e` is in the fragment and the verified model emits exactly these conditions -/
+def checkConditions (sch : Schema) (d : Dialect) (e : Expr) (real : SqlList) : Bool :=
+  frag sch d e && (match conditions sch d e with
+    | .ok cs => SqlList.beq cs real
+    | .error _ => false)
+
+/-- CHECKER for the column of a projection -/
+def checkProjection (sch : Schema) (d : Dialect) (e : Expr) (real : Sql) : Bool :=
+  frag sch d e && valueSorted e && (match projection sch d e with
+    | .ok s => Sql.beq s real
+    | .error _ => false)
+
 end PonyVerif.Model.Q
